@@ -518,7 +518,56 @@ class Interp:
             else:
                 raise Unsupported('del target')
 
+    def _pure_expr(self, e):
+        if isinstance(e, (ast.Name, ast.Constant)):
+            return True
+        if isinstance(e, ast.Attribute):
+            return self._pure_expr(e.value)
+        if isinstance(e, ast.Subscript):
+            return self._pure_expr(e.value) and isinstance(e.slice, ast.Constant)
+        if isinstance(e, ast.BoolOp):
+            return all(self._pure_expr(v) for v in e.values)
+        if isinstance(e, ast.UnaryOp) and isinstance(e.op, ast.Not):
+            return self._pure_expr(e.operand)
+        return False
+
+    def try_if_conversion(self, st, env):
+        """``if <pure test>: d['k'] = <pure value>`` (no else) is executed without forking: the entry becomes
+        conditionally present.  Keeps handlers with many optional members from splitting into 2^n paths."""
+        if st.orelse or len(st.body) != 1 or self.spec():
+            return False
+        b = st.body[0]
+        if not (isinstance(b, ast.Assign) and len(b.targets) == 1 and isinstance(b.targets[0], ast.Subscript)
+                and isinstance(b.targets[0].slice, ast.Constant) and isinstance(b.targets[0].slice.value, str)
+                and isinstance(b.targets[0].value, ast.Name) and self._pure_expr(b.value)
+                and self._pure_expr(st.test)):
+            return False
+        try:
+            d = env.lookup(b.targets[0].value.id)
+        except KeyError:
+            return False
+        if not isinstance(d, VDict):
+            return False
+        self.ctx.spec_depth += 1
+        try:
+            try:
+                c = truthy(self.eval(st.test, env))
+                if isinstance(c, bool):
+                    return False
+                v = self.eval(b.value, env)
+            except (PyRaise, Unsupported):
+                return False
+        finally:
+            self.ctx.spec_depth -= 1
+        self.mutating(d)
+        d.make_symbolic()
+        k = z3.StringVal(b.targets[0].slice.value)
+        d.arr = z3.Store(d.arr, k, z3.If(c.t, lift(v), d.arr[k]))
+        return True
+
     def st_If(self, st, env):
+        if self.try_if_conversion(st, env):
+            return
         c = fold_version_test(st.test)
         if c is None:
             c = self.test(self.eval(st.test, env), 'if@%d' % st.lineno)
